@@ -142,13 +142,61 @@ def tier_b(run, thorough):
     return fails
 
 
+def tier_b_compare(run, thorough):
+    """engine B: the real compare() on symbolic RDM vectors in which the SAME entries are missing (concrete float NaN) in every
+    RDM of both stacks: for all positive real values of the other entries the result is the measure of the ENTRY-DELETED
+    vectors -- cosine, and correlation (cosine of the vectors centred over the available entries; zero-norm branch decided at
+    a generic point).  The central clause of the property, for all values at small shapes; the whitened measures (conjugate
+    gradient) and larger shapes stay with the bounded tier."""
+    import importlib
+    import numpy as np
+    import sympy as sp
+    from vf.symrun.core import symarray, patched_np, identical, OVERRIDES_USED, guard
+    cmpm = importlib.import_module('rsatoolbox.rdm.compare')
+    fails = []
+    n_eval = 0
+    nan = float('nan')
+    shapes = [(1, 1, 6, [2]), (2, 1, 6, [0, 4]), (1, 2, 6, [5])] + ([(2, 2, 6, [1, 2, 3]), (1, 1, 10, [0, 9]), (2, 1, 3, [1])] if thorough else [])
+
+    def cos(u, v):
+        return np.dot(u, v) / (sp.sqrt(np.dot(u, u)) * sp.sqrt(np.dot(v, v)))
+    cen = lambda v: v - sum(v[1:], v[0]) / sp.Integer(len(v))
+    for (n1, n2, P, miss) in shapes:
+        A = symarray('a', (n1, P), positive=True)
+        B = symarray('b', (n2, P), positive=True)
+        A2, B2 = A.copy(), B.copy()
+        for j in miss:
+            A2[:, j] = nan
+            B2[:, j] = nan
+        keep = [j for j in range(P) if j not in miss]
+        for method in ('cosine', 'corr'):
+            nm = f'C13/compare/B/same-mask-equals-entry-deleted[{method},{n1}x{n2},entries={P},missing={miss}]'
+            with guard(run, nm):
+                with patched_np(['rsatoolbox.rdm.compare', 'rsatoolbox.util.rdm_utils', 'rsatoolbox.util.matrix']):
+                    got = cmpm.compare(A2.copy(), B2.copy(), method=method)
+                f = (lambda v: v) if method == 'cosine' else cen
+                want = np.array([[cos(f(A[i][keep]), f(B[j][keep])) for j in range(n2)] for i in range(n1)], dtype=object)
+                ok, idx, diff = identical(got, want)
+                n_eval += 1
+                run.obligation(nm, 'proved' if ok else 'refuted', 'sympy-normal-form', 0.0,
+                               detail='compare of NaN-bearing stacks == measure of the entry-deleted vectors, all positive real values'
+                               if ok else f'differs at {idx}: {str(diff)[:200]}')
+                if not ok:
+                    fails.append((nm, 'compare', dict(case=nm, what=f'differs at {idx}: {str(diff)[:200]}')))
+    for o in sorted(OVERRIDES_USED):
+        run.trust('engine B proxy override: ' + o)
+    run.bounded_check('C13/B/compare-same-mask', 'B', 'ALL POSITIVE REAL dissimilarities; (stack sizes, entries, missing positions) in %s; '
+                      'cosine and correlation' % (shapes,), n_eval, n_eval, exhaustive=False, failures=len(fails))
+    return fails
+
+
 def run(run):
     E = new_engine(run)
     fails = lemmas(run)
     for ck in check_parsers(run, E):
         fails += ck.failed
     finish_engine(E, run)
-    for nm, fn, detail in tier_b(run, run.tier == 'thorough'):
+    for nm, fn, detail in tier_b(run, run.tier == 'thorough') + tier_b_compare(run, run.tier == 'thorough'):
         run.violation(nm, 'all-real-values', dict(obligation=nm, detail=detail), found_input=False,
                       what='engine-B identity refuted: ' + str(detail.get('what'))[:200])
     finish(run, fails, 'C13')
